@@ -130,26 +130,100 @@ def flatten_events(trace, loops=None, out=None):
     return out
 
 
-def linearize(trace, limit=4096):
-    """expand Alt nodes: -> [(cond poly, [items])] ; LoopMark items are kept in place."""
-    paths = [(ONE, [])]
+def linearize(trace, limit=512):
+    """expand Alt nodes: -> [(cond poly, [items])] ; LoopMark items are kept in place.
+    Raises Undecided beyond `limit` paths (use annotate() / dfa_run() on big merged traces)."""
+    paths = [([], [])]
     for it in trace:
         if isinstance(it, E.Alt):
             new = []
+            subs = [(c, linearize_raw(sub, limit)) for c, sub in it.alts]
             for c0, items in paths:
-                for c, sub in it.alts:
-                    for c2, sub_items in linearize(sub, limit):
-                        cc = c0 * c * c2
-                        if cc.const_value() == 0:
-                            continue
-                        new.append((cc, items + sub_items))
+                for c, sl in subs:
+                    for c2, sub_items in sl:
+                        new.append((c0 + [c] + c2, items + sub_items))
+                        if len(new) > limit:
+                            raise E.Undecided("too many linear paths")
             paths = new
-            if len(paths) > limit:
-                raise E.Undecided("too many linear paths")
+        else:
+            for _, items in paths:
+                items.append(it)
+    out = []
+    for cs, items in paths:
+        cc = ONE
+        for c in cs:
+            cc = cc * c
+            if cc.const_value() == 0:
+                break
+        if cc.const_value() == 0:
+            continue
+        out.append((cc, items))
+    return out
+
+
+def linearize_raw(trace, limit):
+    paths = [([], [])]
+    for it in trace:
+        if isinstance(it, E.Alt):
+            new = []
+            subs = [(c, linearize_raw(sub, limit)) for c, sub in it.alts]
+            for c0, items in paths:
+                for c, sl in subs:
+                    for c2, sub_items in sl:
+                        new.append((c0 + [c] + c2, items + sub_items))
+                        if len(new) > limit:
+                            raise E.Undecided("too many linear paths")
+            paths = new
         else:
             for _, items in paths:
                 items.append(it)
     return paths
+
+
+def annotate(trace, loops=None, conds=(), follower=False, in_loop=False, out=None, known=None, decisions=None):
+    """every event of a trace tree with its context: [{ev, conds, follower, in_loop}].
+    follower: some event may follow this one on a path through the tree."""
+    out = [] if out is None else out
+    # does the tail after position i contain events?
+    n = len(trace)
+    tail = [False] * (n + 1)
+    tail[n] = follower
+    for i in range(n - 1, -1, -1):
+        it = trace[i]
+        has = False
+        if isinstance(it, E.Ev):
+            has = it.kind == "call"
+        elif isinstance(it, E.Alt):
+            has = any(_has_events(sub, loops) for _, sub in it.alts)
+        elif isinstance(it, E.LoopMark):
+            has = loops is not None and it.loop_id in loops and any(_has_events(c["trace"], loops) for c in loops[it.loop_id]["cont"])
+        tail[i] = tail[i + 1] or has
+    for i, it in enumerate(trace):
+        if isinstance(it, E.Ev):
+            if it.kind == "call":
+                out.append({"ev": it, "conds": conds, "follower": tail[i + 1], "in_loop": in_loop, "known": known,
+                            "decisions": decisions})
+        elif isinstance(it, E.Alt):
+            for c, sub in it.alts:
+                annotate(sub, loops, conds + (c,), tail[i + 1], in_loop, out, known, decisions)
+        elif isinstance(it, E.LoopMark):
+            if loops is not None and it.loop_id in loops:
+                for c in loops[it.loop_id]["cont"]:
+                    # inside a loop another iteration (or the code after the loop) may follow
+                    annotate(c["trace"], loops, conds, True, True, out, c["state"].facts.known, c["state"].facts.decisions())
+    return out
+
+
+def _has_events(trace, loops):
+    for it in trace:
+        if isinstance(it, E.Ev) and it.kind == "call":
+            return True
+        if isinstance(it, E.Alt) and any(_has_events(sub, loops) for _, sub in it.alts):
+            return True
+        if isinstance(it, E.LoopMark) and loops is not None and it.loop_id in loops and \
+                any(_has_events(c["trace"], loops) for c in loops[it.loop_id]["cont"]):
+            return True
+    return False
 
 
 def syms_of(items):
